@@ -22,6 +22,11 @@ model ignores the field — it has no state outside the deque, which is what the
 field makes a failing case self-contained (it replays in a new process) when the real code remembers something
 from one configuration to the next. The generator also interleaves such configurations in the case order.
 
+An op line may carry ``"pid_objects": <mode>`` (see ``PID_MODES``): how the application obtained the ``PacketId`` objects it
+registers (from_raw, built with other values and changed through the attributes after raw() was read, taken out of a header
+that was packed and then changed through its setters, taken from a telecommand made of a used header). The model registers the
+13-bit values of the triples; the field is ignored there.
+
 Every octet string has exactly one decomposition junk/packet/…/tail (theorems ``C13_every_stream``,
 ``C13_stream_junk_tail``), so every generated stream is an input inside the property's domain
 (``expect="valid"``); ``spec_scan`` is that decomposition evaluated by the harness, and every op
@@ -116,19 +121,78 @@ def _pid_view(p) -> Tuple[int, int, int, int]:
     return (int(p.ptype), int(bool(p.sec_header_flag)), int(p.apid), int(p.raw()))
 
 
+# key "pid_objects" of a line (not read by the model, which registers the 13-bit values): HOW the application obtained the
+# PacketId objects it registers. The parser matches by PacketId.raw(), so an ID object is whatever its fields say at the time
+# of the call, however it got there:
+#   "from_raw"      PacketId.from_raw(13-bit value)
+#   "mutated"       a PacketId built with other values, looked at (raw(), ==), then given the values through its attributes
+#   "header"        the packet_id of a SpacePacketHeader built with other values and packed, then given the values through
+#                   the header's setters (packet_type / sec_header_flag / apid)
+#   "tc-header"     the packet_id of a PusTc made by PusTc.from_sp_header from a bare header (no secondary header flag) that
+#                   had been packed before (IDs of packet type TC with secondary header; others as "header")
+# which of the three fields differ at first is a function of the triple and its position in the list. A PacketId class that
+# does not take assignments (a value object) is built by its constructor instead.
+PID_MODES = ("from_raw", "mutated", "header", "tc-header")
+_DIFFER = (2, 1, 4, 3, 6, 7, 5)          # bit 0 packet type, bit 1 secondary header flag, bit 2 APID
+
+
+def _mk_pid(t, pos: int, mode: str) -> PacketId:
+    t = (int(t[0]), int(t[1]), int(t[2]))
+    if mode == "from_raw":
+        return PacketId.from_raw(raw_id(t))
+    d = _DIFFER[(pos + t[2]) % len(_DIFFER)]
+    o = (t[0] ^ (d & 1), t[1] ^ ((d >> 1) & 1), t[2] ^ (0x2A5 if d & 4 else 0))
+    try:
+        if mode == "mutated":
+            p = PacketId(PacketType(o[0]), bool(o[1]), o[2])
+            _ = (p.raw(), p == PacketId(PacketType(t[0]), bool(t[1]), t[2]))
+            if d & 1:
+                p.ptype = PacketType(t[0])
+            if d & 2:
+                p.sec_header_flag = bool(t[1])
+            if d & 4:
+                p.apid = t[2]
+            return p
+        if mode == "tc-header" and t[0] == 1 and t[1] == 1:
+            from spacepackets.ecss.tc import PusTc
+            h = sp.SpacePacketHeader(packet_type=PacketType(pos % 2), apid=t[2], seq_count=pos, data_len=0)
+            h.pack()
+            return PusTc.from_sp_header(h, 17, 1).packet_id
+        h = sp.SpacePacketHeader(packet_type=PacketType(o[0]), apid=o[2], seq_count=pos, data_len=1, sec_header_flag=bool(o[1]))
+        _ = (h.pack(), h.packet_id.raw())
+        if d & 2:
+            h.sec_header_flag = bool(t[1])
+        if d & 1:
+            h.packet_type = PacketType(t[0])
+        if d & 4:
+            h.apid = t[2]
+        return h.packet_id
+    except (AttributeError, TypeError):
+        return PacketId(PacketType(t[0]), bool(t[1]), t[2])
+
+
 def _pids(a) -> List[PacketId]:
     """the registered IDs as a program holds them: ONE list per configuration, created once and passed to every
-    parser call of that configuration (cases with equal `ids` share the instance, whatever ran in between)"""
+    parser call of that configuration (cases with equal `ids` share the instance, whatever ran in between); with the key
+    "pid_objects" a list of its own, the objects obtained as that key says"""
+    mode = a.get("pid_objects")
+    if mode in PID_MODES:
+        return [_mk_pid(t, pos, mode) for pos, t in enumerate(a["ids"])]
     return core.REUSE.get("C13.packet_ids " + str(a["ids"]), lambda: _mk_pids(a["ids"]))
 
 
-def _pids_untouched(a, pids: List[PacketId]) -> None:
+def _pids_untouched(a, pids: List[PacketId], before=None) -> None:
     """the parser only reads the registered IDs (assumption 2 of this property: they stay the same for the whole history):
-    the reused list still holds what a freshly made one would"""
+    the list still holds what a freshly made one would (`before`: what it showed right before the first parser call)"""
     want = [(t[0], t[1], t[2], raw_id(t)) for t in a["ids"]]
     have = [_pid_view(p) for p in pids]
     if have != want:
-        raise SelfCheckFailure(f"the packet_ids sequence passed to the parser reads {have} after the call, it was built as {want}")
+        if before is not None and before == have:
+            raise SelfCheckFailure(f"the PacketId objects registered with the parser show (type, flag, APID, raw()) {have} - before and after the "
+                                   f"parser calls; objects with these fields have the raw values {[w[3] for w in want]} (the parser matches "
+                                   f"the 13 bits of raw())")
+        raise SelfCheckFailure(f"the packet_ids sequence passed to the parser reads (type, flag, APID, raw()) {have} after the call, it was "
+                               f"built as {want}")
 
 
 def _prime(a) -> None:
@@ -165,6 +229,7 @@ def _run(a, steps: List[Optional[bytes]]) -> Dict[str, Any]:
     if "prior" in a:
         _prime(a)
     pids = _pids(a)
+    pids_before = [_pid_view(p) for p in pids] if a.get("pid_objects") else None
     ids_raw = [raw_id(t) for t in a["ids"]]
     q: deque = deque()
     fed = bytearray()
@@ -220,7 +285,7 @@ def _run(a, steps: List[Optional[bytes]]) -> Dict[str, Any]:
         rest.append(r.hex())
         rest_canon.append(canon(ids_raw, r).hex())
         queue.append([c.hex() for c in chunks])
-    _pids_untouched(a, pids)
+    _pids_untouched(a, pids, pids_before)
     if handed_out:
         # packets handed out by earlier calls are still the octets they were ("byte-identical"): a later call on the
         # same deque must not grow, trim or overwrite them ...
@@ -249,6 +314,7 @@ def op_sp_parse_buf(a):
     if "prior" in a:
         _prime(a)
     pids = _pids(a)
+    pids_before = [_pid_view(p) for p in pids] if a.get("pid_objects") else None
     chunk = bytearray(raw)
     q = deque([chunk])
     objs = parse_space_packets(q, pids)
@@ -259,7 +325,7 @@ def op_sp_parse_buf(a):
         raise SelfCheckFailure(f"returned {[p.hex() for p in out]}, the buffer contains exactly {[p.hex() for p in exp_packets]}")
     if not raw.endswith(r) or canon(ids_raw, r) != canon(ids_raw, exp_rest) or (n_junk == 0 and r != exp_rest):
         raise SelfCheckFailure(f"the queue holds {r.hex()}, the not-yet-complete tail is {exp_rest.hex()}")
-    _pids_untouched(a, pids)
+    _pids_untouched(a, pids, pids_before)
     if objs:
         core.ISOLATION.check("C13.returned-packets", list(objs), _returned_view)
     # the caller reuses the buffer it had appended (refills it in place): neither the packets handed out nor what the
@@ -280,7 +346,19 @@ def op_sp_parse_consts(a):
             "min_total": int(sp.get_total_space_packet_len_from_len_field(0))}
 
 
-OPS = {"sp_parse_run": op_sp_parse_run, "sp_parse_cuts": op_sp_parse_cuts, "sp_parse_buf": op_sp_parse_buf,
+def _says_how(fn):
+    """a finding on a line with the key "pid_objects" says how the registered PacketId objects were obtained"""
+    def wrapped(a):
+        try:
+            return fn(a)
+        except SelfCheckFailure as e:
+            if a.get("pid_objects") in PID_MODES:
+                raise SelfCheckFailure(f"{e} [the registered PacketId objects for {a['ids']} were obtained by: {a['pid_objects']}, see PID_MODES]")
+            raise
+    return wrapped
+
+
+OPS = {"sp_parse_run": _says_how(op_sp_parse_run), "sp_parse_cuts": _says_how(op_sp_parse_cuts), "sp_parse_buf": _says_how(op_sp_parse_buf),
        "sp_parse_consts": op_sp_parse_consts}
 
 # what is compared with the model: the packets returned by every call, and the queue content after every call
@@ -346,6 +424,7 @@ class Stream:
         self._junk: Optional[int] = None
         self._wf: Optional[bool] = None
         self.prior: Optional[List[List[Triple]]] = None     # see the module docstring
+        self.pid_objects: Optional[str] = None              # see PID_MODES
         # positions worth cutting at: around every packet start / header end / packet end
         marks = set()
         pos = 0
@@ -405,11 +484,14 @@ class Stream:
             self._junk = spec_scan(self.ids_raw, self.data)[2]
         if self._wf is None:
             self._wf = self.wf()
-        return tag + ("" if self._junk == 0 else "+junk") + ("" if self._wf else "-arbitrary")
+        return (tag + ("" if self._junk == 0 else "+junk") + ("" if self._wf else "-arbitrary")
+                + ("" if self.pid_objects is None else "+pid-" + self.pid_objects))
 
     def _op(self, op: Dict[str, Any]) -> Dict[str, Any]:
         if self.prior is not None:
             op["prior"] = [[list(t) for t in ids] for ids in self.prior]
+        if self.pid_objects is not None:
+            op["pid_objects"] = self.pid_objects
         return op
 
     def _fed(self, op: Dict[str, Any], tag: str, feed: Optional[bool], salt: bytes) -> str:
@@ -519,7 +601,7 @@ class C13(Prop):
         else:
             return
         n = len(data) // 2
-        extra = {"prior": o["prior"]} if "prior" in o else {}
+        extra = {k: o[k] for k in ("prior", "pid_objects") if k in o}
         for k in range(min(n - 1, 64)):
             yield Case(dict({"op": "sp_parse_cuts", "ids": o["ids"], "stream": data, "cuts": 1 << k, "parses": 1}, **extra), "valid",
                        tag="neighbour", keys=CMP)
@@ -566,6 +648,18 @@ class C13(Prop):
             yield st.case_run(steps, "explicit-octet-by-octet", feed=True)
         yield Case({"op": "sp_parse_run", "ids": [], "steps": [None, rbytes(rng, 20).hex(), None, rbytes(rng, 3).hex(), None]}, "valid",
                    tag="no-ids", keys=CMP)
+
+        # --- the registered PacketId objects obtained every way (key "pid_objects", see PID_MODES): every ID set, gaps in
+        #     front of / between / behind the packets, one buffer, unfragmented, a cut at every marked position -------------
+        for k, id_set in enumerate(ID_SETS + [fam[0] for fam in ID_FAMILIES] + [[(1, 1, 0x42)], [(1, 1, 5), (0, 1, 5), (1, 0, 5), (0, 0, 5)]]):
+            for mode in PID_MODES:
+                st = mk_stream(rng, id_set, [rng.choice([0, 1, 4]), rng.choice([0, 2])], [rng.choice([0, 2]), rng.choice([1, 3])], 2,
+                               rng.choice([None, 4]))
+                st.pid_objects = mode
+                yield st.case_buf("id-objects-buf")
+                yield st.case_cuts(0, 0, "id-objects")
+                for m in st.marks:
+                    yield st.case_cuts(1 << (m - 1), 1, "id-objects")
 
         # --- exhaustive: every cut set x every subset of call points, streams of <= 9 octets ------------------
         small = [
@@ -653,6 +747,8 @@ class C13(Prop):
             tj = rng.choice([0, 1, 3, 6, 8]) if with_junk else 0
             tc = rng.choice([None, 0, 1, 2, 5, 6, 7, 8, 12])
             s = mk_stream(rng, ids, dlens, junk, tj, tc)
+            if i % 2:
+                s.pid_objects = PID_MODES[(i // 2) % len(PID_MODES)]
             n = len(s.data)
             # one cut at every marked position, one call per chunk
             for m in s.marks:
@@ -802,6 +898,7 @@ class C13(Prop):
                     # the lines also say which siblings ran before (self-contained: they replay in a new process) ...
                     k = fam.index(ids)
                     s.prior = fam[k + 1:] + fam[:k]
+                    s.pid_objects = PID_MODES[(r + k) % len(PID_MODES)] if (r + k) % 3 else None
                     yield s.case_buf("configurations-buf")
                     yield s.case_cuts(0, 0, "configurations")
                     for m in s.marks:
@@ -839,6 +936,8 @@ class C13(Prop):
             further = bytes(tm2.pack())
             tail = further[:rng.choice([0, 1, 5, 6, 7, 10, len(further) - 1])]
             s = Stream(ids, [(b"", r) for r in raws], b"", tail)
+            if i % 2:
+                s.pid_objects = ("tc-header", "header", "mutated", "from_raw")[(i // 2) % 4]
             n = len(s.data)
             yield s.case_cuts(0, 0, "library-packets")
             yield s.case_cuts(1 << 9, 1, "library-packets")          # the cut of tests/ccsds/test_sp_parser.py
